@@ -88,6 +88,21 @@ def observe_placeholder(rid, pre, post, c, scratch, c_ini=None, stale=False):
     return row
 
 
+def observe_wip(rid, text):
+    """--wip --tags=<text>: the whole expression AND @wip (truth tables with the tag wip present / absent)"""
+    from behave.configuration import Configuration
+    row = {"id": rid, "kind": "wip", "text": chars(text), "err": False, "tt": [], "tt0": [], "exc": ""}
+    try:
+        config = Configuration(command_args=["--wip", "--tags=" + text], load_config=False)
+        e = config.tag_expression
+        row["tt"] = [bool(e.check(list(s) + ["wip"])) for s in SUBSETS]
+        row["tt0"] = [bool(e.check(list(s))) for s in SUBSETS]
+    except Exception as x:
+        row["err"] = True
+        row["exc"] = type(x).__name__
+    return row
+
+
 def variants(case, rnd, tier):
     """text-level renderings derived from the ones TLC produced"""
     mn, full, at = "".join(case["min"]), "".join(case["full"]), "".join(case["at"])
@@ -151,6 +166,11 @@ def run(chk):
             meta[rid] = {"form": "placeholder", "input": pre + "{config.tags}" + post, "config_tags": [mn, "@zb"], "stale_v1_configuration_before": rid % 2 == 0}
     finally:
         shutil.rmtree(scratch, ignore_errors=True)
+    # --wip together with an expression
+    for case in (cases if not chk.quick() else rnd.sample(cases, min(len(cases), 200))):
+        for txt in ("".join(case["min"]), "".join(case["at"])):
+            rid += 1
+            rows.append(observe_wip(rid, txt)); meta[rid] = {"form": "wip", "input": "--wip --tags=" + txt}
     TagExpressionProtocol.use(TagExpressionProtocol.DEFAULT)
     verdicts = trace.judge_rows(chk, "TagExpr_Trace", rows, chunks=16)
     chk.impl_traces = len(rows)
@@ -186,6 +206,8 @@ def replay(chk, payload):
             shutil.rmtree(scratch, ignore_errors=True)
     elif m["form"] == "list":
         new = observe_expr(1, terms=m["input"])
+    elif m["form"] == "wip":
+        new = observe_wip(1, m["input"][len("--wip --tags="):])
     else:
         new = observe_expr(1, m["input"])
     verdicts = trace.judge_rows(chk, "TagExpr_Trace", [new], chunks=1)
